@@ -48,11 +48,25 @@ class Lock:
 
 
 def run(cmd, timeout=None, cwd=None, env=None, input=None, check=False):
-    p = subprocess.run(cmd, cwd=cwd, env=env, input=input, stdout=subprocess.PIPE,
-                       stderr=subprocess.STDOUT, timeout=timeout)
-    if check and p.returncode != 0:
-        raise RuntimeError("command failed: %r\n%s" % (cmd, p.stdout.decode("utf-8", "replace")[-4000:]))
-    return p.returncode, p.stdout
+    """Run a command in its own process group; on timeout the whole group is killed (make's coqc /
+    ninja's compiler children must not survive as orphans) and (124, output so far) is returned."""
+    import signal
+    p = subprocess.Popen(cmd, cwd=cwd, env=env, stdin=subprocess.PIPE if input is not None else None,
+                         stdout=subprocess.PIPE, stderr=subprocess.STDOUT, start_new_session=True)
+    try:
+        out, _ = p.communicate(input=input, timeout=timeout)
+        rc = p.returncode
+    except subprocess.TimeoutExpired:
+        try:
+            os.killpg(p.pid, signal.SIGKILL)
+        except OSError:
+            pass
+        out, _ = p.communicate()
+        out = (out or b"") + b"\n[checklib.run: timeout after %d s, process group killed]\n" % int(timeout or 0)
+        rc = 124
+    if check and rc != 0:
+        raise RuntimeError("command failed: %r\n%s" % (cmd, out.decode("utf-8", "replace")[-4000:]))
+    return rc, out
 
 
 # --------------------------------------------------------------------------
